@@ -244,6 +244,35 @@ class FunctionIndirectInteractionUtils(object):
         return res
 
 
+    @staticmethod
+    def check_load_order(
+        fis: FunctionIndirectInteractions, all_stores: Set[DDSPath]
+    ) -> None:
+        """
+        Checks that each path produced by the evaluation is only loaded after the call that
+        produces it has returned (the interactions are kept in order of calling).
+        """
+        produced: Set[DDSPath] = set()
+        visited: Set[int] = set()
+
+        def rec(fis0: FunctionIndirectInteractions) -> None:
+            if id(fis0) not in visited:
+                visited.add(id(fis0))
+                for dep in fis0.indirect_deps:
+                    if isinstance(dep, FunctionIndirectInteractions):
+                        rec(dep)
+                    elif dep in all_stores and dep not in produced:
+                        raise DDSException(
+                            f"The path {dep} is loaded in {fis0.fun_path} before the function that "
+                            f"produces it in the same evaluation has been called. Suggestion: "
+                            f"call the function that produces {dep} before loading it."
+                        )
+            if fis0.store_path is not None:
+                produced.add(fis0.store_path)
+
+        rec(fis)
+
+
 class SupportedTypeUtils(object):
     @staticmethod
     def from_type(t: type) -> SupportedType:
